@@ -14,7 +14,7 @@ use crate::tools::parse_timezone;
 
 pub fn timezone_regex_parser(config: &SmartCalcConfig, tokinizer: &mut Tokinizer, group_item: &[Regex]) {
     for re in group_item.iter() {
-        for capture in re.captures_iter(&tokinizer.data.to_owned().to_uppercase()) {
+        for capture in re.captures_iter(&crate::tools::change_case_keep_positions(&tokinizer.data, true)) {
             if let Some((timezone, offset)) = parse_timezone(config, &capture) {
                 if tokinizer.add_token_from_match(&capture.get(0), Some(TokenType::Timezone(timezone, offset))) {
                     tokinizer.add_uitoken_from_match(capture.name("timezone"), UiTokenType::Symbol1);
